@@ -24,5 +24,10 @@ CHECK = {
              # MAP_POPULATE of the 16 MB initial bolt mapping only costs kernel time
              env={"BAO_RAFT_DISABLE_MAP_POPULATE": "1"},
              floors={"raft-live": {"nontrivial": 0.04}}),
+        unit("raft-large", "raft", ["raft/c08_live_test.go", "raft/c08_large_test.go"], "^TestVerif_C08_RaftLarge$",
+             quick={"checks": 1000, "shards": 1, "cap": 600},
+             thorough={"checks": 4000, "shards": 16, "cap": 2400},
+             no_ulimit=True, flaky_is_violation=True,
+             env={"BAO_RAFT_DISABLE_MAP_POPULATE": "1"}),
     ],
 }
